@@ -100,7 +100,7 @@ def handler(p):
 
             def run(ops):
                 for nm in ('findFeaturesAt', 'findNearestFeature'):
-                    getattr(FC, nm).cache_clear()
+                    getattr(getattr(FC, nm, None), 'cache_clear', lambda: None)()
                 return run_case(ops, FC, header)
             shrunk = []
             for key, ops in p['shrink']:
@@ -112,7 +112,7 @@ def handler(p):
             # the lru_cache is one per class: start every case from an empty one (harness hygiene only;
             # keys carry the instance, so a fresh instance can never hit an older instance's entries)
             for nm in ('findFeaturesAt', 'findNearestFeature'):
-                getattr(FC, nm).cache_clear()
+                getattr(getattr(FC, nm, None), 'cache_clear', lambda: None)()
             try:
                 res.append(run_case(ops, FC, header))
             except BaseException as e:
